@@ -1,3 +1,4 @@
+\* generated from checks/C07.py (the check passes the same text as cfg_text); kept for running TLC by hand
 SPECIFICATION MCSpec
 CONSTANTS
   Vars = {"x", "y"}
@@ -8,7 +9,7 @@ CONSTANTS
   Keys = {}
   Caps = {4}
   RawLens = {}
-  RawShape = 1
+  RawShape = 0
   MaxLen = 4
   MaxKids = 2
   ZeroTouch = TRUE
